@@ -23,10 +23,12 @@ def run_tests(flt=''):
     return r.stdout
 
 
-def recheck_stored(props):
+def recheck_stored(props, only=None):
     """Re-run all checks on every stored seed and refresh checks_fired in its meta.json."""
     for d in sorted(glob.glob(os.path.join(ROOT, 'seeded', '*'))):
         patch = d + '/patch.diff'
+        if only and os.path.basename(d) not in only:
+            continue
         st = sh('git -C /repo status --porcelain --untracked-files=no').stdout.strip()
         if st:
             print('/repo not clean'); return
@@ -55,8 +57,8 @@ def recheck_stored(props):
 
 def main():
     props = [c['property_id'] for c in json.load(open(os.path.join(ROOT, 'MANIFEST.json')))['checks']]
-    if sys.argv[1:] == ['--stored']:
-        recheck_stored(props)
+    if sys.argv[1:2] == ['--stored']:
+        recheck_stored(props, set(sys.argv[2:]))
         return
     for pid in sys.argv[1:]:
         out = '/tmp/seed/%s/out' % pid
